@@ -4,6 +4,7 @@ from vlib import build, core
 
 SEEK = ['contrib/seekable_format/zstdseek_compress.c', 'contrib/seekable_format/zstdseek_decompress.c']
 HARNESSES = {'h_c20/asan': ('h_c20', 'asan', dict(repo_sources=SEEK, cflags=['-I' + os.path.join(build.REPO, 'contrib/seekable_format'), '-DXXH_STATIC_LINKING_ONLY'], hash_subdirs=['contrib/seekable_format']))}
+HARNESSES['h_c20/val'] = ('h_c20', 'val', HARNESSES['h_c20/asan'][2])
 
 
 def run(prop, tier, seed, t0):
@@ -14,8 +15,9 @@ def run(prop, tier, seed, t0):
     res = core.Result()
     n = 12000 if thorough else 400
     R.run_sharded(res, exe, [], n, label='h_c20/asan', variant='asan')
+    nvg = core.valgrind_stage(R, res, HARNESSES['h_c20/val'], [], 1600 if thorough else 64, n)
     cov = {
-        'evaluations': res.stat('range_reads') + res.stat('frame_reads') + res.stat('corrupt_reads') + res.stat('iofault_reads'),
+        'archives_under_valgrind_memcheck': nvg, 'evaluations': res.stat('range_reads') + res.stat('frame_reads') + res.stat('corrupt_reads') + res.stat('iofault_reads'),
         'distinct_nontrivial': res.ncells('read_class') + res.ncells('layout') + res.ncells('corruption'),
         'rule': 'archives = contents x maxFrameSize {1..3, small, 128KiB+-2, 2^30, default, random} x checksum flag x chunked compression histories with explicit endFrame points (also empty frames); '
                 'each archive: R walks the frame sequence + plain ZSTD_decompress of the whole; accessors for every index 0..numFrames(+out of range) against R\'s layout; range reads by class (continue forward, back, straddle boundary, at boundary, to end, zero length, random) through memory / FILE / callback access; decompressFrame; '
